@@ -383,3 +383,109 @@ func c20SitesCase(t *testing.T) Case {
 	}
 	return Case{Coq: "KSites " + L(parts), Replay: c20SrcReplay{Kind: "sites"}, NonTrivial: true, Key: "sites"}
 }
+
+
+// ---------------------------------------------------------------- error text in client-visible fields (syntactic)
+
+// c20HintSites lists the calls WithHint / WithHintf / WithDescription (the fields every client sees) in the
+// non-test sources whose arguments contain the text of a Go error value: `x.Error()` or an identifier named
+// err (or ending in Err/err) passed to a format verb.  Such text belongs in WithDebug, which is rendered only
+// when the operator enabled SendDebugMessagesToClients.
+type c20HintSite struct {
+	Where string `json:"where"` // file:function
+	Field string `json:"field"`
+	Arg   string `json:"arg"`
+}
+
+func c20IsErrText(e ast.Expr) bool {
+	found := false
+	ast.Inspect(e, func(n ast.Node) bool {
+		switch x := n.(type) {
+		case *ast.CallExpr:
+			if sel, ok := x.Fun.(*ast.SelectorExpr); ok && sel.Sel.Name == "Error" && len(x.Args) == 0 {
+				found = true
+			}
+		case *ast.Ident:
+			if x.Name == "err" || strings.HasSuffix(x.Name, "Err") || strings.HasSuffix(x.Name, "err") {
+				found = true
+			}
+		}
+		return !found
+	})
+	return found
+}
+
+func c20HintSites(t *testing.T) []c20HintSite {
+	root := c20Repo()
+	var files []string
+	for _, d := range []string{".", "handler", "token", "compose"} {
+		_ = filepath.Walk(filepath.Join(root, d), func(p string, info os.FileInfo, err error) error {
+			if err != nil {
+				return nil
+			}
+			if info.IsDir() {
+				if d == "." && p != root {
+					return filepath.SkipDir
+				}
+				return nil
+			}
+			if strings.HasSuffix(p, ".go") && !strings.HasSuffix(p, "_test.go") {
+				files = append(files, p)
+			}
+			return nil
+		})
+	}
+	var out []c20HintSite
+	calls := 0
+	for _, p := range files {
+		fset := token.NewFileSet()
+		f, err := parser.ParseFile(fset, p, nil, 0)
+		if err != nil {
+			t.Fatalf("cannot parse %s: %v", p, err)
+		}
+		rel, _ := filepath.Rel(root, p)
+		for _, d := range f.Decls {
+			fd, ok := d.(*ast.FuncDecl)
+			if !ok || fd.Body == nil {
+				continue
+			}
+			ast.Inspect(fd.Body, func(n ast.Node) bool {
+				ce, ok := n.(*ast.CallExpr)
+				if !ok {
+					return true
+				}
+				sel, ok := ce.Fun.(*ast.SelectorExpr)
+				if !ok {
+					return true
+				}
+				switch sel.Sel.Name {
+				case "WithHint", "WithHintf", "WithDescription", "WithHintIDOrDefaultf":
+				default:
+					return true
+				}
+				calls++
+				for _, a := range ce.Args {
+					if c20IsErrText(a) {
+						out = append(out, c20HintSite{Where: rel + ":" + fd.Name.Name, Field: sel.Sel.Name, Arg: types.ExprString(a)})
+						break
+					}
+				}
+				return true
+			})
+		}
+	}
+	if calls < 100 {
+		t.Fatalf("only %d WithHint/WithDescription calls found; the reader no longer understands the sources", calls)
+	}
+	return out
+}
+
+// one case per site (each is an alarm of the monitor), plus one summary case that is always clean
+func c20HintCases(t *testing.T) []Case {
+	sites := c20HintSites(t)
+	out := []Case{{Coq: "KHint \"\" \"\"", Replay: c20SrcReplay{Kind: "hints"}, NonTrivial: true, Key: "hints"}}
+	for _, s := range sites {
+		out = append(out, Case{Coq: "KHint " + Q(s.Where) + " " + Q(s.Field), Replay: c20SrcReplay{Kind: "hints", Name: s.Where}, NonTrivial: true, Key: "hint:" + s.Where + ":" + s.Arg})
+	}
+	return out
+}
